@@ -533,7 +533,10 @@ spifconf_shell_expand(spif_charptr_t s)
               break;
           case '\\':
               D_CONF(("Escape sequence detected.\n"));
-              if (!in_single || (in_single && *(pbuff + 1) == '\'')) {
+              if (!*(pbuff + 1)) {
+                  /* A backslash at the very end has nothing to escape.  Keep it. */
+                  newbuff[j] = *pbuff;
+              } else if (!in_single || (in_single && *(pbuff + 1) == '\'')) {
                   switch (tolower(*(++pbuff))) {
                     case 'n':
                         newbuff[j] = '\n';
@@ -581,7 +584,12 @@ spifconf_shell_expand(spif_charptr_t s)
                   }
               }
               if (!builtins[k].name) {
-                  newbuff[j] = *pbuff;
+                  if (*pbuff) {
+                      newbuff[j] = *pbuff;
+                  } else {
+                      /* A percent sign at the very end.  Keep it, and stay in front of the terminator. */
+                      newbuff[j] = *(--pbuff);
+                  }
               } else {
                   D_CONF(("Call to built-in function %s detected.\n", builtins[k].name));
                   Command = (spif_charptr_t) MALLOC(CONFIG_BUFF);
@@ -636,6 +644,10 @@ spifconf_shell_expand(spif_charptr_t s)
                   }
                   ASSERT_RVAL(l < CONFIG_BUFF, NULL);
                   Command[l] = 0;
+                  if (!*pbuff) {
+                      /* No closing backquote.  Stay in front of the terminator. */
+                      pbuff--;
+                  }
                   Command = spifconf_shell_expand(Command);
                   Output = builtin_exec(Command);
                   FREE(Command);
@@ -666,11 +678,11 @@ spifconf_shell_expand(spif_charptr_t s)
                   EnvVar = (spif_charptr_t) MALLOC(128);
                   switch (*(++pbuff)) {
                     case '{':
-                        for (pbuff++, k = 0; *pbuff != '}' && k < 127; k++, pbuff++)
+                        for (pbuff++, k = 0; *pbuff && *pbuff != '}' && k < 127; k++, pbuff++)
                             EnvVar[k] = *pbuff;
                         break;
                     case '(':
-                        for (pbuff++, k = 0; *pbuff != ')' && k < 127; k++, pbuff++)
+                        for (pbuff++, k = 0; *pbuff && *pbuff != ')' && k < 127; k++, pbuff++)
                             EnvVar[k] = *pbuff;
                         break;
                     default:
